@@ -33,6 +33,7 @@ RULE = (
     "delimiters (12 sets exceed the implicit-environment memo), all created before any is rendered or interleaved, judged the same way. Non-trivial = rewrite with >= 1 tag and non-empty "
     "output, or history with >= 2 environments; distinct by content."
     " Rounds 5-6 added enumerated families: closing and opening delimiters of every width 1-3 per markup kind against whitespace-control bodies; delimiters holding hyphens."
+    " Round 7 added: paired environments (stock and future) that differ in one option, both creation orders."
 )
 REQUIRED = [
     ("liquid/lex.py", "compile_liquid_rules"),
